@@ -14,6 +14,12 @@ pub struct RoCase {
     pub dirty: bool,
     pub fsinfo_unknown: bool,
     pub end_by_drop: bool,
+    /// FAT32: 0 = leave the FS-info next-free hint alone, else one of the odd values below (foreign volumes)
+    #[serde(default)]
+    pub odd_hint: u8,
+    /// FAT32: 0 = leave the free count alone, 1 = total clusters + 1 (out of range), 2 = 0xFFFFFFFE
+    #[serde(default)]
+    pub odd_count: u8,
 }
 
 fn setup_gen() -> GenCfg {
@@ -58,7 +64,22 @@ pub fn eval(c: &RoCase) -> CaseOut {
     run.cfg = &ro_cfg;
     let mut viol = None;
     let r = (|| {
-        run.begin_readonly(c.dirty, c.fsinfo_unknown)?;
+        let (maxc, total) = (run.geom.max_cluster(), run.geom.clusters as u32);
+        let hint = match c.odd_hint % 8 {
+            1 => Some(maxc + 1),
+            2 => Some(maxc + 2),
+            3 => Some(0x0FFF_FFFF),
+            4 => Some(0),
+            5 => Some(1),
+            6 => Some(maxc),
+            _ => None,
+        };
+        let count = match c.odd_count % 4 {
+            1 => Some(total + 1),
+            2 => Some(0xFFFF_FFFE),
+            _ => None,
+        };
+        run.begin_readonly_with(c.dirty, c.fsinfo_unknown, hint, count)?;
         for (i, op) in c.ro.iter().enumerate() {
             run.exec(1000 + i, op)?;
             if run.sess.is_none() {
@@ -100,7 +121,7 @@ fn strategy() -> impl Strategy<Value = RoCase> {
         let mut mem: Vec<String> = Vec::new();
         let setup = s_raw.iter().flat_map(|r| gen::decode_op(&sg, &nt, cs, r, &mut mem)).collect();
         let ro = r_raw.iter().flat_map(|r| gen::decode_op(&rg, &nt, cs, r, &mut mem)).collect();
-        RoCase { vol, setup, ro, dirty: flags & 3 == 0, fsinfo_unknown: flags & 12 == 0, end_by_drop: flags & 16 != 0 }
+        RoCase { vol, setup, ro, dirty: flags & 3 == 0, fsinfo_unknown: flags & 12 == 0, end_by_drop: flags & 16 != 0, odd_hint: if flags & 32 != 0 { 1 + (flags >> 6) + 3 * (flags & 1) } else { 0 }, odd_count: if flags & 0xC0 == 0xC0 { 1 + (flags & 1) } else { 0 } }
     })
 }
 
@@ -110,7 +131,7 @@ pub fn replay(v: &serde_json::Value) -> Result<Option<String>, String> {
 }
 
 pub fn run(tier: Tier, seed: u64) -> i32 {
-    let rule = "volumes of every FAT width populated by a generated mutating history (library-formatted and imggen geometries), then raw-edited to be clean or dirty and with the FS-info count present or unknown; a generated read-only session (mount, list, open existing/missing, seek, read, extents, labels, status flags, stats, handle drops, unmount or drop, repeated remounts) runs on an instrumented device; oracle = the device's write log over the whole session is empty, sole exception FAT32 + stats() + no usable count at mount (unknown / out of range / volume dirty), where writes must lie inside the FS-info sector and store the true count; non-trivial = session reads file data, calls stats and lists or queries labels; distinct by hash of the case";
+    let rule = "volumes of every FAT width populated by a generated mutating history (library-formatted and imggen geometries), then raw-edited to be clean or dirty, with the FS-info count present, unknown or out of range and the next-free hint valid or out of range (last+1, last+2, 0x0FFFFFFF, 0, 1); a generated read-only session (mount, list, open existing/missing, seek, read, extents, labels, status flags, stats, handle drops, unmount or drop, repeated remounts) runs on an instrumented device; oracle = the device's write log over the whole session is empty, sole exception FAT32 + stats() + no usable count at mount (unknown / out of range / volume dirty), where writes must lie inside the FS-info sector and store the true count; non-trivial = session reads file data, calls stats and lists or queries labels; distinct by hash of the case";
     let mut rep = Report::new("C13", tier, seed, "exploration", rule);
     rep.assume("access-date updating is left disabled (the property's condition)");
     let mut reg = Block::new("regress");
